@@ -328,6 +328,42 @@ func c12Corpus() []string {
 			}
 		}
 	}
+	// tail shapes: the compound statement is the LAST statement of the function (no return follows it), and each of its suites
+	// ends in a return, a raise or falls through: the implicit "return None" must be there exactly when some path needs it
+	tails := []string{
+		"if k:\n    %A\nelse:\n    %B\n",
+		"if k:\n    %A\nelif k > 1:\n    %B\n",
+		"try:\n    if k: raise KeyError\n    %A\nexcept KeyError:\n    %B\nelse:\n    %C\n",
+		"try:\n    %A\nfinally:\n    %B\n",
+		"for j in range(k):\n    %A\nelse:\n    %B\n",
+		"for j in range(2):\n    if k: break\n    %A\nelse:\n    %B\n",
+		"n = 0\nwhile n < k:\n    n += 1\n    %A\nelse:\n    %B\n",
+		"n = 0\nwhile n < 2:\n    n += 1\n    if k: break\n    %A\nelse:\n    %B\n",
+		"with CM(True):\n    %A\n",
+		"with CM(False):\n    if k:\n        %A\n",
+		"try:\n    if k == 1: raise KeyError\n    %A\nexcept KeyError:\n    %B\nelse:\n    %C\nfinally:\n    %D\n",
+	}
+	fills := []string{"_log.append(1)", "return k", "raise KeyError", "if k > 1: return 7"}
+	for _, tpl := range tails {
+		slots := 0
+		for _, sl := range []string{"%A", "%B", "%C", "%D"} {
+			if strings.Contains(tpl, sl) {
+				slots++
+			}
+		}
+		total := 1
+		for i := 0; i < slots; i++ {
+			total *= len(fills)
+		}
+		for m := 0; m < total; m++ {
+			body, x := tpl, m
+			for _, sl := range []string{"%A", "%B", "%C", "%D"}[:slots] {
+				body = strings.Replace(body, sl, fills[x%len(fills)], 1)
+				x /= len(fills)
+			}
+			out = append(out, pre+"def fn(k):\n    _log.append(0)\n"+Indent(body, 4)+"for k in range(3):\n    try:\n        _log.append(fn(k))\n    except Exception:\n        _log.append('exc')\n")
+		}
+	}
 	out = append(out,
 		"def f(a, b=1, *c, d=2, e=3, **g) -> int:\n    return a\nf(1, 2, 3, d=4, e=5, h=6, *(7, 8), **{'i': 9})\n",
 		"def f(a: int, b: str = 'x', *c: list, d: int = 2, **e: dict) -> None:\n    pass\nf(1)\n",
